@@ -582,6 +582,26 @@ func (e *SEnv) evalCallSX(sx *SX) Val {
 		es, _ := x.elemSort(s)
 		a := x.arrComp(e.st, es)
 		return Val{T: app("select", a.T, app("sl_arr", s.T)), S: arrayOf(es)}
+	case "seqappend":
+		// seqappend(seq, n, s): seq with the elements of slice s written at positions n, n+1, ...
+		if !argn(3) {
+			break
+		}
+		if len(e.bound) > 0 {
+			return e.fail(sx, "seqappend under a binder")
+		}
+		q := e.eval(sx.Args[0])
+		n := e.eval(sx.Args[1])
+		sl := e.eval(sx.Args[2])
+		es, _ := x.elemSort(sl)
+		if q.S != arrayOf(es) {
+			return e.fail(sx, "seqappend: element sorts differ")
+		}
+		c := x.freshConst("seq", q.S)
+		at := x.sliceAt(e.st, sl, app("-", "j", n.T))
+		e.st.assume(fmt.Sprintf("(forall ((j Int)) (! (= (select %s j) (ite (and (<= %s j) (< j (+ %s %s))) %s (select %s j))) :pattern ((select %s j))))",
+			c, n.T, n.T, app("sl_len", sl.T), at.T, q.T, c))
+		return Val{T: c, S: q.S}
 	case "lsum":
 		// lsum(s, n): sum of the first n elements of slice s
 		if !argn(2) {
